@@ -73,7 +73,18 @@ pub fn gen_match(seed: u64, n: usize) -> Vec<Value> {
     let mut rng = ChaCha8Rng::seed_from_u64(seed);
     (0..n)
         .map(|_| {
-            let pool = ["the", "The", "a", "A", "cat", "CAT", "dog", "x", "", "é", "É", "über", "Über", "ÜBER", "ж", "Ж"];
+            // words may contain whitespace that is not ASCII (match_words splits on ASCII whitespace only)
+            let pool = ["the", "The", "a", "A", "cat", "CAT", "dog", "x", "", "é", "É", "über", "Über", "ÜBER", "ж", "Ж", "10\u{a0}km", "a\u{3000}b", "x\u{2028}"];
+            // one pair in sixty is long (more than a hundred words) with a displaced block: a word far from the diagonal
+            if rng.random_bool(1.0 / 60.0) {
+                let n = rng.random_range(70..=110usize);
+                let a: Vec<String> = (0..n).map(|k| format!("w{k}")).collect();
+                let cut = rng.random_range(1..n);
+                let mut b: Vec<String> = a[cut..].to_vec();
+                b.extend_from_slice(&a[..cut]);
+                if rng.random_bool(0.5) { b.insert(0, "moved".to_string()); }
+                return json!({"a": a.join(" "), "b": b.join(" "), "fold": rng.random_bool(0.5)});
+            }
             let mk = |rng: &mut ChaCha8Rng| -> String {
                 let len = rng.random_range(0..=12);
                 (0..len).map(|_| pool[rng.random_range(0..pool.len())]).filter(|w| !w.is_empty()).collect::<Vec<_>>().join(SEPS[rng.random_range(0..4)])
@@ -112,6 +123,16 @@ fn seqs(case: &Value, key: &str) -> Vec<String> {
 }
 
 pub fn exec_metrics(case: &Value) -> Vec<Value> {
+    // the edit-distance cases are run over an ASCII and over a multi-byte alphabet
+    if get_str(case, "kind") == "med" && case.get("malpha").is_none() {
+        let mut out = vec![];
+        for al in ["ascii", "multi"] {
+            let mut c = case.clone();
+            c["malpha"] = json!(al);
+            out.extend(exec_metrics(&c));
+        }
+        return out;
+    }
     let kind = get_str(case, "kind");
     let mut st = "ok".to_string();
     let mut fail = |what: &str, m: String| { if st == "ok" { st = format!("panic:{what}:{m}"); } };
@@ -192,8 +213,8 @@ pub fn exec_metrics(case: &Value) -> Vec<Value> {
             json!({"kind": kind, "bn": bn, "bd": bd, "p": p, "t": t, "f1": r, "acc": acc})
         }
         _ => {
-            // mean (normalised) edit distance over ASCII word-free strings (slots of the "ascii" alphabet)
-            let al = alphabet("ascii");
+            // mean (normalised) edit distance over strings of the "ascii" alphabet or (malpha = "multi") of 2-4 byte letters
+            let al = alphabet(if get_str(case, "malpha") == "multi" { "multi" } else { "ascii" });
             let a: Vec<String> = case["a"].as_array().unwrap().iter().map(|t| concretise(t, &al)).collect();
             let b: Vec<String> = case["b"].as_array().unwrap().iter().map(|t| concretise(t, &al)).collect();
             let mut int = Interner::default();
